@@ -16,6 +16,7 @@ func init() {
 
 func runC17(c *Ctx) {
 	L := c.L
+	c.checkNormaliserSums("normaliser-sum", "distance/protein")
 	c.checkDenseSymmetry()
 	c.checkDistRange()
 	c.checkBranchClamp()
